@@ -78,7 +78,7 @@ PROGRAMS = {
         ["declare", "g", "ryd_glob"], ["declare", "l", "ram_loc", "q0"],
         ["add", "g", ["cp", 100, S("a0", lo=0, hi=10), 0.0, 0.0]], ["add", "l", ["cp", 40, 1.0, 0.0, 0.0], "no-delay"],
         ["align", ["g", "l"], True], ["add", "l", ["cp", 40, 1.0, 0.0, 0.0], "no-delay"],
-        ["delay", "l", 16, True], ["add", "g", ["cp", 40, 1.0, 0.0, 0.0], "no-delay"], ["delay", "g", 16, False],
+        ["delay", "l", 16, True, "positional"], ["add", "g", ["cp", 40, 1.0, 0.0, 0.0], "no-delay"], ["delay", "g", 16, False, "positional"],
         ["align", ["l", "g"], False]]),
     "composite": dict(device="mock", prog=[
         ["declare", "g", "raman_global"],
@@ -104,7 +104,7 @@ PROGRAMS = {
         ["add", "g", ["cp", 20, S("a0", lo=0, hi=5), S("d0", "fix", lo=-20, hi=20), 0.0]],
         ["add_dmm", "dmm_0", ["ramp", 16, S("e0", "fix", lo=-10, hi=-5), S("e1", "fix", lo=-5, hi=0)]],
         ["add_dmm", "dmm_0", ["const", 12, -3.0], "wait-for-all"], ["delay", "dmm_0", 8]]),
-    "slm_ising": dict(device="mock", prog=[
+    "slm_ising": dict(device="mock", unused_var=True, prog=[
         ["declare", "g", "rydberg_global"], ["config_slm", ["q0", "q2"]],
         ["add", "g", ["cp", 20, S("a0", lo=0.1, hi=5), S("d0", "fix", lo=-20, hi=20), 0.0]],
         ["add", "g", ["cp", 12, S("a1", lo=0, hi=5), 0.0, 1.0]]]),
@@ -154,7 +154,7 @@ PARAM_PROGRAMS = {
                       ["interp", 40, E("sub", ["var", "s"], {"lit": [0.0, 1.0, 2.0]}), [0.0, 0.5, 1.0]], 0.0]],
         ["add", "g", ["cdet", ["interp", 40, E("mul", {"lit": [2.0, 1.0, 0.5]}, ["var", "arr"]), [0.0, 0.25, 1.0]], E("div", ["var", "s"], 2.0), 0.0]]]),
     # mappable register: "all qubits" of a target-less phase_shift is only known at build time (built with 2 of 3 qubits)
-    "mappable_shift_all": dict(device="mock", reg="mappable3", qubits={"q0": 1, "q1": 4}, vars=[("a", "float", 1)], prog=[
+    "mappable_shift_all": dict(device="mock", reg="mappable3", direct_reg="mapped3", qubits={"q0": 1, "q1": 4}, vars=[("a", "float", 1)], prog=[
         ["declare", "g", "rydberg_global"],
         ["add", "g", ["cp", 16, E("var", "a"), 0.0, 0.25]],
         ["phase_shift", E("mul", ["var", "a"], 0.5), [], "ground-rydberg"],
@@ -168,6 +168,16 @@ PARAM_PROGRAMS = {
         ["add", "g", ["pulse", ["interp", 40, E("slice", "arr", None, None, 2)], ["interp", 40, E("slice", "arr", 1, None, 3)], 0.0]],
         ["add", "g", ["cdet", ["interp", 24, E("slice", "arr", None, None, -2)], 0.5, 0.0]],
         ["add", "g", ["cdet", ["interp", 24, E("slice", "arr", 1, 4)], 0.5, 0.0]]]),
+    # index-based calls resolved at build time on a partially mapped register (negative index = last MAPPED qubit)
+    "mappable_index": dict(device="mock", reg="mappable3", direct_reg="mapped3", qubits={"q0": 1, "q1": 4}, vars=[("a", "float", 1), ("t", "int", 2)],
+                           index_values=[-1, 0], prog=[
+        ["declare", "l", "rydberg_local", "q0"],
+        ["add", "l", ["cp", 16, E("var", "a"), 0.0, 0.25]],
+        ["target_index", "l", E("item", "t", 0)],
+        ["add", "l", ["cp", 12, 1.0, 0.0, 0.0]],
+        ["phase_shift_index", E("var", "a"), [1], "ground-rydberg"],
+        ["target_index", "l", E("item", "t", 1)],
+        ["add", "l", ["cp", 12, 1.0, E("neg", ["var", "a"]), 0.0]]]),
     "vars_dmm": dict(device="mock", vars=[("x", "float", 1)], prog=[
         ["declare", "g", "rydberg_global"], ["config_dmap", {"q0": 1.0, "q1": 0.5, "q2": 0.0}, "dmm_0"],
         ["add_dmm", "dmm_0", ["ramp", 16, E("neg", ["var", "x"]), E("div", ["neg", ["var", "x"]], 2.0)]],
@@ -191,6 +201,8 @@ def resolve_ph(inp, x):
 
 def build_program(inp, P, env=None):
     seq = l2.new_seq(P["device"], P.get("reg", "reg3"))
+    if P.get("unused_var"):
+        seq.declare_variable("declared_but_unused", dtype=float)  # does not make the sequence parametrized
     inp.env = env or {}
     if env is not None and P.get("vars") and env == "declare":
         inp.env = {}
@@ -229,6 +241,8 @@ def static_equal(a, b):
             wa = cs.detuning_map.get_qubit_weight_map(ra.qubits)
             wb = b._schedule[n].detuning_map.get_qubit_weight_map(rb.qubits)
             terms.append(l2.snap_equal(wa, wb))
+    terms.append(a.is_parametrized() == b.is_parametrized())
+    terms.append(sorted(a.declared_variables) == sorted(b.declared_variables))
     terms.append(a._in_xy == b._in_xy)
     terms.append(set(a._slm_mask_targets) == set(b._slm_mask_targets))
     return terms
@@ -293,7 +307,7 @@ def var_values(inp, P, tag):
             base = 1.0 if tag == "v" else 0.75
             v = [base + 0.5 * i for i in range(size)]
         elif typ == "int":
-            v = [inp.mult("%s_%s%d" % (tag, name, i), 4, 8, 40) for i in range(size)] if name != "t" else [1, 2][:size]
+            v = [inp.mult("%s_%s%d" % (tag, name, i), 4, 8, 40) for i in range(size)] if name != "t" else list(P.get("index_values", [1, 2]))[:size]
         else:
             v = [inp.real("%s_%s%d" % (tag, name, i), 0.125, 4) for i in range(size)]
         vals[name] = v if size > 1 else v[0]
